@@ -118,7 +118,7 @@ func toExport(t tvalGo, p polGo) absnfs.ExportOptions {
 		NegativeCacheTimeout: time.Duration(t.num[3]), DirCacheTimeout: time.Duration(t.num[4]),
 		DirCacheMaxEntries: int(t.num[5]), DirCacheMaxDirSize: int(t.num[6]), MaxWorkers: int(t.num[7]),
 		MaxConnections: int(t.num[8]), IdleTimeout: time.Duration(t.num[9]), SendBufferSize: int(t.num[10]),
-		ReceiveBufferSize: int(t.num[11]),
+		ReceiveBufferSize:    int(t.num[11]),
 		CacheNegativeLookups: t.flag[0], EnableDirCache: t.flag[1], TCPKeepAlive: t.flag[2], TCPNoDelay: t.flag[3], Async: t.flag[4],
 		Log: logPtr(t.log), Timeouts: t.timeoutConfig(),
 	}
@@ -591,18 +591,18 @@ func defaultTimeouts(t [9]int64) bool {
 // ---- generators ----
 var sec = int64(time.Second)
 var posValues = [12][]int64{
-	{1, 512, 4096, 65536, 1 << 20},           // TransferSize
-	{sec, 7 * sec, 3600 * sec},               // AttrCacheTimeout
-	{1, 50, 10000, 1000000},                  // AttrCacheSize
-	{sec, 7 * sec, 3600 * sec},               // NegativeCacheTimeout
-	{sec, 7 * sec, 3600 * sec},               // DirCacheTimeout
-	{1, 10, 1000},                            // DirCacheMaxEntries
-	{1, 100, 10000},                          // DirCacheMaxDirSize
-	{1, 2, 8, 16},                            // MaxWorkers
-	{2, 5, 100},                              // MaxConnections
-	{2 * sec, 60 * sec, 3600 * sec},          // IdleTimeout
-	{4096, 65536, 262144},                    // SendBufferSize
-	{4096, 65536, 262144},                    // ReceiveBufferSize
+	{1, 512, 4096, 65536, 1 << 20},  // TransferSize
+	{sec, 7 * sec, 3600 * sec},      // AttrCacheTimeout
+	{1, 50, 10000, 1000000},         // AttrCacheSize
+	{sec, 7 * sec, 3600 * sec},      // NegativeCacheTimeout
+	{sec, 7 * sec, 3600 * sec},      // DirCacheTimeout
+	{1, 10, 1000},                   // DirCacheMaxEntries
+	{1, 100, 10000},                 // DirCacheMaxDirSize
+	{1, 2, 8, 16},                   // MaxWorkers
+	{2, 5, 100},                     // MaxConnections
+	{2 * sec, 60 * sec, 3600 * sec}, // IdleTimeout
+	{4096, 65536, 262144},           // SendBufferSize
+	{4096, 65536, 262144},           // ReceiveBufferSize
 }
 
 func isDuration(i int) bool { return i == 1 || i == 3 || i == 4 || i == 9 }
